@@ -341,6 +341,14 @@ def run(ctx):
     operand_positions(ctx, py, fn, local_defs, theory, STACK, receivers, LABEL, loop)
     memory_map(ctx, py, loop, LV, PROOF, STACK, receivers)
     publication(ctx, py, fn, tail, CONV, TARGET, STACK, receivers)
+    # the letters of a compressed proof number the target's mandatory hypotheses in database order (shared with C15): the replay
+    # resolves `A`, `B`, .. through that table, so a wrong order derives the target with its metavariables permuted
+    from . import c15
+    conv = py.cls('MetamathConverter')
+    ip = conv.methods.get('_import_proof')
+    ctx.require(ip is not None, 'anchor vanished: MetamathConverter._import_proof')
+    c15.numbering(ctx, py, ip, conv)
+    c15.label_tokens(ctx, py, ip)
     ctx.floor('stack-discipline', 14)
     ctx.floor('operand-position', 8)
     ctx.explanation = (
@@ -553,6 +561,26 @@ def operand_positions(ctx, py, fn, local_defs, theory, STACK, receivers, LABEL, 
                py.where(TR, branch[0]))
 
 
+def memory_map_standalone(ctx, py):
+    """entry point for C15: the same rule without the rest of C16"""
+    fn = py.function(TR, 'exec_proof')
+    params = [a.arg for a in fn.args.args]
+    INTERP = params[3]
+    receivers = {INTERP}
+    stack_fns = set()
+    for n in _own(fn):
+        if isinstance(n, ast.Assign) and isinstance(n.value, ast.Lambda) and not n.value.args.args and isinstance(n.targets[0], ast.Name):
+            body = ast.unparse(n.value.body)
+            if body == INTERP:
+                receivers.add(n.targets[0].id + '()')
+            elif body.endswith('.stack'):
+                stack_fns.add(n.targets[0].id + '()')
+    loops = [n for n in fn.body if isinstance(n, ast.For) and ast.unparse(n.iter).endswith('.applied_lemmas')]
+    ctx.require(len(loops) == 1 and stack_fns, 'exec_proof: replay loop not found')
+    loop = loops[0]
+    memory_map(ctx, py, loop, loop.target.id, ast.unparse(loop.iter)[:-len('.applied_lemmas')], sorted(stack_fns)[0], receivers)
+
+
 def memory_map(ctx, py, loop, LV, PROOF, STACK, receivers):
     """Z saves the current top and remembers it in order; number k > len(labels) reloads the (k - len(labels))-th saved entry"""
     fn = py.function(TR, 'exec_proof')
@@ -575,7 +603,12 @@ def memory_map(ctx, py, loop, LV, PROOF, STACK, receivers):
     saves = [c for s in zb for c in _own(s) if isinstance(c, ast.Call) and isinstance(c.func, ast.Attribute) and c.func.attr == 'save'
              and ast.unparse(c.func.value) in receivers]
     ok = len(appends) == 1 and len(saves) == 1 and resolve(appends[0].args[0]) == f'{STACK}[-1]' and resolve(saves[0].args[1]) == f'{STACK}[-1]'
-    ctx.ob('memory-map', 'Z-saves-top', ok, 'a Z mark must save the entry on top of the stack and remember that same entry, once', where)
+    # ... on every path through the branch: the k-th Z opens the k-th slot whatever the marked expression is
+    every = all(sum(1 for a in sp.actions for c in _own(a) if c in appends) == 1 and sum(1 for a in sp.actions for c in _own(a) if c in saves) == 1
+                for sp in astpaths.paths(zb) if sp.end in ('fall', 'continue'))
+    ctx.ob('memory-map', 'Z-saves-top', ok and every,
+           'every Z mark must save the entry on top of the stack and remember that same entry, once and unconditionally: the k-th Z opens '
+           'the k-th slot, and later reuse numbers count Z marks, not distinct expressions', where)
     MEM = ast.unparse(appends[0].func.value) if appends else '?'
     loads = [c for s in rb for c in _own(s) if isinstance(c, ast.Call) and isinstance(c.func, ast.Attribute) and c.func.attr == 'load'
              and ast.unparse(c.func.value) in receivers]
